@@ -470,7 +470,12 @@ func recordHistory(t *testing.T, tw *tracelog.Writer, seed int64, nops, drainEve
 	for _, u := range types.SupportedUptimes {
 		ups = append(ups, u.Milliseconds()) // 1ns -> 0
 	}
-	tw.Emit(map[string]any{"e": "cfg", "spacing": w.space, "f": apphelp.BigD(w.f), "users": nusers,
+	// each incentive denom is bound to ONE minimum uptime for the whole history
+	incUp := []int{0, rng.Intn(len(types.SupportedUptimes))}
+	if rng.Intn(3) == 0 {
+		incUp[0] = rng.Intn(len(types.SupportedUptimes))
+	}
+	tw.Emit(map[string]any{"e": "cfg", "incUpMs": []int64{ups[incUp[0]], ups[incUp[1]]}, "spacing": w.space, "f": apphelp.BigD(w.f), "users": nusers,
 		"scaledFee": scaledFee, "scaledInc": scaledInc, "uptimesMs": ups, "seed": seed,
 		"minTick": types.MinInitializedTick, "maxTick": types.MaxTick,
 		"minSqrt": apphelp.BigBD(types.MinSqrtPriceBigDec), "maxSqrt": apphelp.BigBD(types.MaxSqrtPriceBigDec),
@@ -877,16 +882,13 @@ func recordHistory(t *testing.T, tw *tracelog.Writer, seed int64, nops, drainEve
 
 	doIncentive := func() {
 		who := rng.Intn(nusers)
-		di := rng.Intn(len(allDenoms))
+		di := 2 + rng.Intn(2) // inca / incb
 		amt := w.randAmt(9)
 		rate := osmomath.NewDecFromInt(w.randAmt(6)).QuoInt64(int64(1 + rng.Intn(1000)))
 		if rate.IsZero() {
 			rate = osmomath.OneDec()
 		}
-		ui := 0
-		if rng.Intn(2) == 0 {
-			ui = rng.Intn(len(types.SupportedUptimes))
-		}
+		ui := incUp[di-2]
 		startOff := time.Duration(0)
 		if rng.Intn(3) == 0 {
 			startOff = time.Duration(rng.Intn(3600)) * time.Second
